@@ -13,7 +13,7 @@ from ..model import fqual
 from ..symx import Expander
 from ..anf import R
 from .. import anf
-from .common import struct_ob, formula_ob, guard, last_return
+from .common import struct_ob, formula_ob, guard, last_return, U
 from ..report import AnalysisError
 
 REL = "inference/approx/conditional.py"
@@ -52,11 +52,11 @@ def run(prog, tier):
 
     # ---------------------------------------------------------------- dispatch between the branches
     tt = prog.function(REL, "trapezium_transform")
-    txt = ast.unparse(tt)
+    txt = U(tt)
     ok = ("near_zero = abs(dh) < " in txt and "t[near_zero] = trapezium_near_zero(x[near_zero], dh[near_zero])" in txt
           and "t[stable] = trapezium_full(x[stable], dh[stable])" in txt and "stable = ~near_zero" in txt
           and "return trapezium_full(x, dh)" in txt)
-    thr = [n for n in ast.walk(tt) if isinstance(n, ast.Compare) and "abs(dh)" in ast.unparse(n.left)]
+    thr = [n for n in ast.walk(tt) if isinstance(n, ast.Compare) and "abs(dh)" in U(n.left)]
     okt = len(thr) == 1 and isinstance(thr[0].comparators[0], ast.Constant) and 0 < thr[0].comparators[0].value <= 1e-3
     obs.append(struct_ob("branch-dispatch", fqual(mi, tt), ok and okt,
                          "near-zero cells must use the expansion, all others the exact transform, each on its own elements "
@@ -80,8 +80,8 @@ def run(prog, tier):
     obs.append(formula_ob("delta-form", fqual(mi, ps) + "[cdf-link]", p0.div(means), 1 - delta, REL, ps.lineno,
                           what="p0/mean = 1 - delta, i.e. delta is the dh of the CDF  dh*u^2 + (1-dh)*u  that the transform inverts"))
     # cell-weight: the un-normalised weights assigned before `weights /= weights.sum()`
-    wdefs = [s for s in ps.body if isinstance(s, ast.Assign) and ast.unparse(s.targets[0]) == "weights"]
-    wnorm = [s for s in ps.body if isinstance(s, ast.AugAssign) and ast.unparse(s.target) == "weights"]
+    wdefs = [s for s in ps.body if isinstance(s, ast.Assign) and U(s.targets[0]) == "weights"]
+    wnorm = [s for s in ps.body if isinstance(s, ast.AugAssign) and U(s.target) == "weights"]
     if len(wdefs) != 1:
         raise AnalysisError("anchor vanished: weights definition in piecewise_linear_sample")
     ex2 = Expander(prog, mi, None)
@@ -92,33 +92,33 @@ def run(prog, tier):
     want_w = Fraction(1, 2) * (p1 + p0) * (x1 - x0)
     ratio = anf.proportional(w, want_w)
     ok = ratio is not None and ratio > 0
-    normalised = len(wnorm) == 1 and isinstance(wnorm[0].op, ast.Div) and ast.unparse(wnorm[0].value) == "weights.sum()"
+    normalised = len(wnorm) == 1 and isinstance(wnorm[0].op, ast.Div) and U(wnorm[0].value) == "weights.sum()"
     obs.append(struct_ob("cell-weight", fqual(mi, ps), ok and normalised,
                          f"cell probabilities must be proportional to mean height x width = 1/2 (p1+p0)(x1-x0) and normalised by "
                          f"their sum; code has weights = {w} (ratio to the reference: {ratio}); normalised by sum: {normalised}",
                          REL, wdefs[0].lineno, slots={"weights": str(w)}))
     # sample-form
     inds = env.get("inds")
-    src = {ast.unparse(s.targets[0]): s.value for s in ps.body if isinstance(s, ast.Assign)}
+    src = {U(s.targets[0]): s.value for s in ps.body if isinstance(s, ast.Assign)}
     ic = src.get("inds")
-    ok_i = (isinstance(ic, ast.Call) and ast.unparse(ic.func) == "rng.choice" and ast.unparse(ic.args[0]) == "weights.size"
-            and any(k.arg == "p" and ast.unparse(k.value) == "weights" for k in ic.keywords)
-            and any(k.arg == "size" and ast.unparse(k.value) == ps.args.args[2].arg for k in ic.keywords))
+    ok_i = (isinstance(ic, ast.Call) and U(ic.func) == "rng.choice" and U(ic.args[0]) == "weights.size"
+            and any(k.arg == "p" and U(k.value) == "weights" for k in ic.keywords)
+            and any(k.arg == "size" and U(k.value) == ps.args.args[2].arg for k in ic.keywords))
     obs.append(struct_ob("sample-form", fqual(mi, ps) + "[cell-choice]", ok_i,
-                         f"cells must be drawn with probabilities `weights`: `{ast.unparse(ic) if ic is not None else None}`",
+                         f"cells must be drawn with probabilities `weights`: `{U(ic) if ic is not None else None}`",
                          REL, ps.lineno))
     tz = src.get("trapz")
-    ok_s = (tz is not None and ast.unparse(tz) == "trapezium_transform(rng.random(size=n_samples), delta[inds]) * dx[inds]"
-            and ast.unparse(ret.value) == f"{xs}[inds] + trapz")
+    ok_s = (tz is not None and U(tz) == "trapezium_transform(rng.random(size=n_samples), delta[inds]) * dx[inds]"
+            and U(ret.value) == f"{xs}[inds] + trapz")
     obs.append(struct_ob("sample-form", fqual(mi, ps) + "[position]", ok_s,
                          f"samples must be x[k] + T(U, delta[k]) * dx[k] for the chosen cell k: trapz = "
-                         f"`{ast.unparse(tz) if tz is not None else None}`; return `{ast.unparse(ret.value)}`", REL, ret.lineno))
+                         f"`{U(tz) if tz is not None else None}`; return `{U(ret.value)}`", REL, ret.lineno))
 
     # ---------------------------------------------------------------- evaluate_conditional: normalised on the returned grid
     ec = prog.function(REL, "evaluate_conditional")
     ret = last_return(ec)
-    body = [ast.unparse(s) for s in ec.body]
-    ok = (ast.unparse(ret.value) == "(x_cond, p_cond)" and "p_cond /= simpson(p_cond, x=x_cond)" in body
+    body = [U(s) for s in ec.body]
+    ok = (U(ret.value) == "(x_cond, p_cond)" and "p_cond /= simpson(p_cond, x=x_cond)" in body
           and body.index("p_cond /= simpson(p_cond, x=x_cond)") == len(body) - 2
           and "p_cond = exp(p_cond - p_mode)" in body
           and any(b.startswith("p_cond = array([func(x) for x in x_cond])") for b in body))
@@ -127,7 +127,7 @@ def run(prog, tier):
                          "integral over that grid, as the last step before returning", REL, ec.lineno))
     # ---------------------------------------------------------------- grid spans the bounds
     gc = prog.function(REL, "get_conditionals")
-    txt = ast.unparse(gc)
+    txt = U(gc)
     ok = ("search_points = linspace(*bounds[i], n_search_points)" in txt
           and "search_points = insert(search_points, index, conditioning_point[i])" in txt
           and "index = searchsorted(search_points, conditioning_point[i])" in txt
@@ -150,7 +150,7 @@ def run(prog, tier):
                            "scan moves the point through which the next conditional is taken", REL,
                          hits[0][2] if hits else cc.node.lineno))
     cfn = cc.methods.get("__call__")
-    body = [ast.unparse(s_) for s_ in cfn.body]
+    body = [U(s_) for s_ in cfn.body]
     xarg = cfn.args.args[1].arg
     ok = (len(body) == 3 and body[0].endswith("= self.theta.copy()") and body[1] == f"{body[0].split(' =')[0]}[self.variable_index] = {xarg}"
           and body[2] == f"return self.posterior({body[0].split(' =')[0]})")
